@@ -44,9 +44,12 @@ def eval_case(pid, pl, res, case, obs, kf_class=None):
             continue
         fields = [f["name"] for f in it.get("fields", [])]
         acc = it.get("vftacc", {})
+        # fields called `vftable` that the description itself declares (legal when the type does not own a pointer)
+        dfn = next((x for m in case["input"]["mods"] if m["path"] == mp for x in m["defs"] if x["name"] == t["name"]), None)
+        declared_vft = sum(1 for f in (dfn or {}).get("fields", []) if f["name"] == "vftable")
         if pid == "C06":
             if t["baseHasVft"]:
-                if "vftable" in fields:
+                if fields.count("vftable") != declared_vft:
                     problems.append(f"{t['name']} has its own vftable pointer although its first base carries one")
                 if acc.get("has") and acc.get("via") == "?":
                     res.notes.append(f"case {cid}: {t['name']}::vftable() has an unrecognised body (decided by execution only)")
@@ -66,7 +69,7 @@ def eval_case(pid, pl, res, case, obs, kf_class=None):
                 elif not acc.get("has") or acc.get("via") != "":
                     problems.append(f"{t['name']}::vftable() does not read the type's own pointer")
             else:
-                if acc.get("has") or "vftable" in fields:
+                if acc.get("has") or fields.count("vftable") != declared_vft:
                     problems.append(f"{t['name']} has a vftable pointer/accessor although nothing declares one")
             if t["ownBlock"]:
                 tab = proj_item(obs, mp + [t["name"] + "Vftable"])
